@@ -531,8 +531,8 @@ def next_end_tokens(state: TokenizerState) -> Iterator[TokenInfo]:
             "",
         )
     for _ in state.indents[1:]:  # pop remaining indent levels
-        yield TokenInfo(Token.DEDENT, "", (state.lnum, 0), (state.lnum, 0), "")
-    yield TokenInfo(Token.ENDMARKER, "", (state.lnum, 0), (state.lnum, 0), "")
+        yield TokenInfo(Token.DEDENT, "", (state.lnum, 0), (state.lnum, 0), state.line)
+    yield TokenInfo(Token.ENDMARKER, "", (state.lnum, 0), (state.lnum, 0), state.line)
 
 
 def handle_fstring_progs(state: TokenizerState, endprog: EndProg) -> Iterator[TokenInfo]:
